@@ -172,6 +172,19 @@ def cexpr(n, env):
       raise Untranslatable(n, "min/max on types %s, %s" % (at, bt))
     if isinstance(f, ast.Attribute) and f.attr == 'copy' and not n.args and not n.keywords:
       return cexpr(f.value, env)
+    if isinstance(f, ast.Attribute) and f.attr == 'ravel' and not n.args and not n.keywords:
+      ty, tm = cexpr(f.value, env)
+      if ty == 'M':
+        return ('V', "(nn_ravel %s)" % tm)        # row-major unrolling
+      if ty == 'V':
+        return ('V', tm)
+      raise Untranslatable(n, ".ravel() on type " + ty)
+    if np_call(n, 'einsum') and len(n.args) == 3 and not n.keywords and isinstance(n.args[0], ast.Constant) \
+        and n.args[0].value == 'ij,ik->jk' and env.vars.get('__dim__', (None,))[0] == 'N':
+      (at, a), (bt, b) = cexpr(n.args[1], env), cexpr(n.args[2], env)
+      if at == bt == 'M':
+        return ('M', "(nn_einsum_ij_ik_jk %s %s %s)" % (env.vars['__dim__'][1], a, b))     # sum_i outer(a_i, b_i)
+      raise Untranslatable(n, "einsum operands")
     if isinstance(f, ast.Attribute) and f.attr == 'dot' and len(n.args) == 1 and not n.keywords:
       return cdot(n, f.value, n.args[0], env)
     if np_call(n, 'dot') and len(n.args) == 2 and not n.keywords:
